@@ -21,7 +21,7 @@ from __future__ import annotations
 
 import ast
 
-from ..astutil import call_recv, attr_chain, callee_name, calls, is_name, text, unwrap_await
+from ..astutil import is_self_attr, call_recv, attr_chain, callee_name, calls, is_name, text, unwrap_await
 from ..core import Result
 from ..model import AnchorMissing, Repo, walk_no_nested
 
@@ -94,6 +94,21 @@ def run(repo: Repo) -> Result:
         # helpers inlined (`_get_macro`, `_macro_context`), aliases such as
         # `undefined = context.env.undefined` propagated — `macro_args` itself stays a call
         f = nfunc(repo, repo.own_method(CALL, m), keep=("macro_args",))
+        # locals named after their roles: the result of self.macro_args(...) is `args`, the
+        # dict handed to context.copy(namespace=...) is `namespace`
+        from ..normalize import rename_locals as _rename_locals
+
+        roles = {}
+        for st0 in ast.walk(f.node):
+            if isinstance(st0, (ast.Assign, ast.AnnAssign)):
+                tg0 = st0.targets[0] if isinstance(st0, ast.Assign) else st0.target
+                if isinstance(tg0, ast.Name) and isinstance(st0.value, ast.Call) and callee_name(st0.value) == "macro_args" and is_self_attr(st0.value.func):
+                    roles[tg0.id] = "args"
+            if isinstance(st0, ast.Call) and callee_name(st0) == "copy":
+                for k0 in st0.keywords:
+                    if k0.arg == "namespace" and isinstance(k0.value, ast.Name):
+                        roles[k0.value.id] = "namespace"
+        f.node = _rename_locals(f.node, roles)
         res.ob(f.qual, 4)
         src = text(f.node)
         nsd = None
@@ -150,11 +165,25 @@ def run(repo: Repo) -> Result:
                         loop_ok = True
         if not loop_ok:
             res.add("C27-CALL", f.qual, "param-loop", f"{f.qual}: every declared parameter must be bound to its evaluated argument, or to env.undefined(name) when none", f.file, f.line)
-        if "self.macro_args(macro)" not in src:
+        # bound with the very macro that is rendered afterwards: self.macro_args(<m>) ... <m>.block.render*(...)
+        ma = [c0 for c0 in calls(f.node) if callee_name(c0) == "macro_args" and is_self_attr(c0.func) and len(c0.args) == 1 and isinstance(c0.args[0], ast.Name)]
+        rendered = {attr_chain(call_recv(c0))[0] for c0 in calls(f.node) if callee_name(c0) in ("render", "render_async") and attr_chain(call_recv(c0)) and attr_chain(call_recv(c0))[-1] == "block"}
+        if len(ma) != 1 or ma[0].args[0].id not in rendered:
             res.add("C27-CALL", f.qual, "macro_args", f"{f.qual} must bind arguments with self.macro_args(macro)", f.file, f.line)
 
     # ---- C27-BIND ----------------------------------------------------------------
-    f = repo.own_method(CALL, "macro_args")
+    from ..normalize import NFunc as _NFn
+    from ..normalize import rename_locals as _rename_locals2
+
+    f0 = repo.own_method(CALL, "macro_args")
+    # locals named after the BoundArgs field they are returned as
+    roles2 = {}
+    for r0 in ast.walk(f0.node):
+        if isinstance(r0, ast.Return) and isinstance(r0.value, ast.Call) and callee_name(r0.value) == "BoundArgs":
+            for k0 in r0.value.keywords:
+                if isinstance(k0.value, ast.Name) and k0.arg:
+                    roles2[k0.value.id] = k0.arg
+    f = _NFn(f0, _rename_locals2(f0.node, roles2))
     res.ob(f.qual, 5)
     body = [s for s in f.node.body if not (isinstance(s, ast.Expr) and isinstance(s.value, ast.Constant))]
     src = text(f.node)
